@@ -348,6 +348,30 @@ func c04(r *vc.Run) int {
 		for _, row := range rowsAtDeath {
 			atDeath[row.ID] = true
 		}
+		// a row the queue handed out in run 1 that is gone at the death although its URL was never requested
+		// - not in run 1, and (its row being gone) not in run 2 either: it left the queue without being crawled
+		requestedRun1 := map[string]bool{}
+		for _, l := range logs[:cut] {
+			requestedRun1[l.URL] = true
+		}
+		for _, e := range ev1 {
+			if e.Point != "lq.before_insert" || atDeath[e.ID] {
+				continue
+			}
+			val := strings.SplitN(e.URL, "\tvia=", 2)[0]
+			if !valid[val] {
+				continue
+			}
+			u := canonForOrigin(val)
+			if !requestedRun1[u] && !requestedRun2[u] {
+				sig := "handed-out-row-deleted-without-fetch"
+				if plan.Seencheck {
+					sig += "/seencheck-on"
+				}
+				r.Violation(sig, fmt.Sprintf("%s: queue row %s (%s) was handed out in run 1, is gone from the queue when run 1 ends, and its URL was never requested in either run", label, e.ID, val),
+					map[string]any{"plan": plan, "cfg": cfg, "killed": killed, "events_of_row_run1": eventsOf(ev1, e.ID)})
+			}
+		}
 		for _, e := range ev1 {
 			if e.Point != "reactor.insert" || atDeath[e.ID] || !valid[e.URL] {
 				continue
